@@ -27,7 +27,8 @@ for p in props:
             "category": "model_checking",
             "text": meta.get("level_text", "Bounded symbolic model checking of the real code: every obligation is decided by z3 over all "
                     "input values inside the stated bounds (path condition AND NOT clause is unsat), counterexamples are replayed "
-                    "on the unshadowed code before being reported. Nothing outside the bounds is claimed."),
+                    "on the unshadowed code before being reported. Nothing outside the bounds is claimed. Obligations: "
+                    + " ".join((mod.__doc__ or "").split())[:1400]),
             "design_ref": "DESIGN.md section 5 (%s), sections 2-4" % pid,
         },
         "level_note": meta.get("level_note", "Trusted: z3, CPython as interpreter of the code under test, the vsym proxy semantics "
